@@ -19,7 +19,7 @@ type Feat struct {
 // restricted by Valid, each element evaluated once by Eval (DESIGN.md §2.4, §2.7).
 type EnumSpec struct {
 	Feats []Feat
-	Valid func(v []int) bool                                         // optional: prune combinations that make no sense
+	Valid func(v []int) bool                                     // optional: prune combinations that make no sense
 	Eval  func(v []int) (clause, detail string, nontrivial bool) // runs one case; clause "" = holds
 	// OutcomeOf (optional) classifies the observed behaviour for the distinct-outcome count
 	Sample int64 // record a sample every n cases (0 = 2000)
@@ -250,4 +250,26 @@ func (s *EnumSpec) Replay(raw json.RawMessage) string {
 	}
 	cl, _, _ := s.Eval(v)
 	return cl
+}
+
+func trailingAbsent(s *EnumSpec, v []int, names ...string) bool {
+	seenAbsent := false
+	for _, n := range names {
+		if v[s.idx(n)] == 0 {
+			seenAbsent = true
+		} else if seenAbsent {
+			return false
+		}
+	}
+	return true
+}
+
+func joinNonAbsent(s *EnumSpec, v []int, pre string, names ...string) string {
+	out := ""
+	for _, n := range names {
+		if x := s.Val(v, n); x != "absent" {
+			out += pre + x
+		}
+	}
+	return out
 }
